@@ -4,6 +4,10 @@ set -e
 export CARGO_NET_OFFLINE=true
 cd /verif
 python3 tools/translate.py || true
-(cd lean && lake build)
+(cd lean && lake build driver RucteModel RucteTables RucteProofs; lake build RucteProps || true)
 cp /repo/Cargo.lock harness/Cargo.lock 2>/dev/null || true
-(cd harness && cargo build --release --offline --target-dir target)
+cd harness
+cargo build --release --offline --target-dir target
+cargo build --release --offline --target-dir target-mime03 --features mime03
+cargo build --release --offline --target-dir target-http-types --features http-types
+cargo build --release --offline --target-dir target-sass --features sass
